@@ -7,7 +7,14 @@ ENTRY = dict(
          "list of 1..4 (thorough: 1..8) public calls out of SetClientRandom (32 bytes; 31/33/0 bytes must be refused), SetSNI (name, "
          "trailing dot, IPv4, bracketed IPv6, empty, one character), Hello.SessionId (32/31/16/1 bytes, zero-length, nil), "
          "Hello.CipherSuites reordered / cut to one / empty (the server then refuses the hello), insert / remove / replace of an object in uconn.Extensions "
-         "(never a session or pre_shared_key extension) and further BuildHandshakeState calls, then Handshake. Observed: the "
+         "(never a session or pre_shared_key extension) and further BuildHandshakeState calls, then Handshake; RESUMING connections: a first connection against the same server "
+         "Config fills the session cache, the observed one loads the session in its first BuildHandshakeState (pre_shared_key with "
+         "binders against a TLS 1.3 server, session_ticket against a TLS 1.2 one), is edited (SetClientRandom, Hello.SessionId, "
+         "Hello.CipherSuites, replaced extension objects, further builds - not SetSNI, which is the cache key, nor insert / remove) "
+         "and Handshake re-marshals the hello and recomputes the binders: every fingerprint once with TLS 1.3 and a seed-rotated "
+         "third with TLS 1.2, fingerprints carrying a UtlsPreSharedKeyExtension 4 (thorough: 24) times; the model receives the "
+         "session-bound extension objects as they are after the handshake (binders are crypto) and must reproduce every other byte. "
+         "A panic of BuildHandshakeState / Handshake after documented edits is a failure (panic/<call>/<fingerprint>). Observed: the "
          "ClientHello handshake messages in the recorded stream, Hello.Raw after each BuildHandshakeState and after Handshake. "
          "Go-side oracle from the property text: first wire hello == Hello.Raw of a BuildHandshakeState made right before Handshake, "
          "Hello.Raw afterwards == last hello sent (second one after a HelloRetryRequest), every edit readable in the parsed first "
